@@ -156,10 +156,14 @@ type GenOptions struct {
 	// QuiesceEvery: insert a sync point about every n operations (0 = only at the end)
 	QuiesceEvery int
 	NoTLS        bool
+	NoOps        bool
 	OnlyNS       string
 	// Sparse: larger name pools and one host per ingress, so that the tracker's dirty
 	// closures stay small (a missing tracking link shows only when no other path exists)
 	Sparse bool
+	// IgnoreAvoid lists avoid constraints that do not apply to this profile (it cannot
+	// reach the trigger of the finding they belong to, e.g. it has no incremental history)
+	IgnoreAvoid []string
 	// ValueOverrides replaces the value list of a key (focus profiles)
 	ValueOverrides map[string][]string
 	// InitialGlobal is merged into the initial global ConfigMap
@@ -304,6 +308,32 @@ func (g *gen) sanitize(o client.Object) {
 				ps[j].Path = "/"
 			}
 			ing.Spec.Rules[i].HTTP.Paths = ps
+		}
+	}
+	if g.opt.Avoid["no_alternating_nesting"] {
+		// one non-exact path type per run: prefix and begin rules never nest in each other
+		for i := range ing.Spec.Rules {
+			if ing.Spec.Rules[i].HTTP == nil {
+				continue
+			}
+			for j := range ing.Spec.Rules[i].HTTP.Paths {
+				p := &ing.Spec.Rules[i].HTTP.Paths[j]
+				if p.PathType != nil && *p.PathType == networking.PathTypeExact {
+					continue
+				}
+				if g.tcpShared { // reuse the per-run coin
+					pt := networking.PathTypePrefix
+					p.PathType = &pt
+				} else {
+					pt := networking.PathTypeImplementationSpecific
+					p.PathType = &pt
+				}
+			}
+		}
+		if !g.tcpShared {
+			if v, ok := ing.Annotations[annPrefix+"path-type"]; ok && v == "prefix" {
+				ing.Annotations[annPrefix+"path-type"] = "begin"
+			}
 		}
 	}
 	if g.opt.Avoid["no_dup_paths"] {
@@ -663,6 +693,16 @@ func GenerateRun(seed uint64, opt GenOptions) (*World, []Op) {
 	if g.opt.Avoid == nil {
 		_, g.opt.Avoid = avoidFlags()
 	}
+	if len(g.opt.IgnoreAvoid) > 0 {
+		av := map[string]bool{}
+		for k, v := range g.opt.Avoid {
+			av[k] = v
+		}
+		for _, k := range g.opt.IgnoreAvoid {
+			delete(av, k)
+		}
+		g.opt.Avoid = av
+	}
 	g.tcpShared = seed%2 == 0
 	if g.opt.Hosts == nil {
 		g.opt.Hosts = defaultHosts
@@ -679,7 +719,7 @@ func GenerateRun(seed uint64, opt GenOptions) (*World, []Op) {
 	if g.opt.MaxIngresses == 0 {
 		g.opt.MaxIngresses = 5
 	}
-	if g.opt.MaxOps == 0 {
+	if g.opt.MaxOps == 0 && !g.opt.NoOps {
 		g.opt.MinOps, g.opt.MaxOps = 8, 30
 	}
 	n := g.opt.KeysPerRun
@@ -688,6 +728,15 @@ func GenerateRun(seed uint64, opt GenOptions) (*World, []Op) {
 	}
 	if g.opt.Avoid["no_external_auth"] {
 		opt.ExcludeIngressKeys = append(append([]string{}, opt.ExcludeIngressKeys...), "auth-url", "oauth", "auth-external-placement")
+	}
+	if g.opt.Avoid["no_case_variant_paths"] {
+		var ps []string
+		for _, p := range g.opt.Paths {
+			if p == strings.ToLower(p) {
+				ps = append(ps, p)
+			}
+		}
+		g.opt.Paths = ps
 	}
 	if g.opt.Avoid["no_app_root"] {
 		opt.ExcludeIngressKeys = append(append([]string{}, opt.ExcludeIngressKeys...), "app-root")
@@ -728,6 +777,10 @@ func GenerateRun(seed uint64, opt GenOptions) (*World, []Op) {
 			g.emit(ep, "")
 		}
 	}
+	// a service only --default-backend-service may name (never used by ingress rules)
+	g.emit(mkService("a", "dflt", nil, map[string]string{"app": "dflt"}, []portSpec{{"http", 80, "8080"}}), "")
+	g.emit(mkPod("a", "dflt-1", "10.0.9.1", map[string]string{"app": "dflt"}, false, []epPort{{"http", 8080}}), "")
+	g.emit(mkEndpoints("a", "dflt", []epAddr{{"10.0.9.1", "dflt-1", true}}, []epPort{{"http", 8080}}), "")
 	g.emit(mkTLSSecret("a", "tls1", g.nextCert()), "")
 	if g.chance(3, 4) {
 		g.emit(mkTLSSecret("a", "tls2", g.nextCert()), "")
